@@ -674,69 +674,106 @@ def _stmt_of(fn, node):
 
 
 def _arg_dependent(run, P, c, grk, fn, rets, prets, i, n_pos, ident):
-    """Declared kind Array(<conjunction of X_kind.is_real_valued>): every argument
-    whose being complex makes the Python result complex is in the conjunction."""
+    """A result whose declared realness depends on the argument kinds: for every
+    argument whose being complex makes the Python result complex (numpy facts),
+    and every kind of that argument that can hold complex data - a complex
+    array, a user type - which the function accepts, the declared kind is not
+    real.  The kind function is interpreted over kind terms (casetable)."""
+    from ..engine import casetable as se
     arg_names = c.attrs.get("arg_names")
-    names = [string_value(e) for e in arg_names.elts] if isinstance(arg_names, (ast.Tuple, ast.List)) else []
-    kindvar = {}
-    for s_ in func_body_stmts(grk.node):
-        if isinstance(s_, ast.Assign) and isinstance(s_.value, ast.Call) \
-                and dotted(s_.value.func) == "self.resolve_args":
-            t = s_.targets[0]
-            elts = t.elts if isinstance(t, ast.Tuple) else [t]
-            for k, e in enumerate(elts):
-                if isinstance(e, ast.Name) and k < len(names):
-                    kindvar[e.id] = names[k]
-    if not kindvar:
+    if isinstance(arg_names, (ast.Tuple, ast.List)):
+        names = [string_value(e) for e in arg_names.elts]
+    elif isinstance(arg_names, ast.Constant) and isinstance(arg_names.value, str):
+        names = list(arg_names.value)
+    else:
         return
+    # is result i's realness a constant?  then the fixed-kind clauses decide it
+    dynamic = False
     for r in rets:
         if len(r.value.elts) != n_pos:
             continue
         el = r.value.elts[i]
-        if not (isinstance(el, ast.Call) and dotted(el.func) in ("Array", "Scalar")):
+        if isinstance(el, ast.Call) and dotted(el.func) in ("Array", "Scalar"):
+            x = el.args[0] if el.args else next((k.value for k in el.keywords
+                                                 if k.arg == "is_real_valued"), None)
+            if x is not None and not isinstance(x, ast.Constant):
+                dynamic = True
+    if not dynamic:
+        return
+    actual = set()
+    for pname in fn.params:
+        env = _realness_env(fn, {q: ("complex?" if q == pname else "real") for q in fn.params})
+        for pr in prets:
+            v = pr.value
+            if n_pos > 1:
+                if not (isinstance(v, ast.Tuple) and len(v.elts) == n_pos):
+                    continue
+                v = v.elts[i]
+            got = _realness(v, fn, env)
+            if got == "unknown":
+                raise AnalysisError(f"{fn.fq}: realness of {norm(v)} not derivable from the "
+                                    f"numpy facts table")
+            if got == "complex?":
+                actual.add(pname)
+
+    def kind(cls, real=None):
+        f_ = {"@classes": ("tuple", (("name", cls), ("name", "SymbolKind"))), "@strict": ("const", True)}
+        if real is not None:
+            f_["is_real_valued"] = ("const", real)
+        else:
+            f_["identifier"] = ("obj", "user_type")
+        return se.rec(cls, **f_)
+
+    REAL = [kind("Array", True), kind("Scalar", True)]
+    CPLX = [("a complex array", kind("Array", False)), ("a user type", kind("UserType"))]
+    bad = []
+    n_cases = 0
+    for p_ in sorted(actual):
+        if p_ not in names:
             continue
-        x = el.args[0] if el.args else next((k.value for k in el.keywords
-                                             if k.arg == "is_real_valued"), None)
-        if x is None or isinstance(x, ast.Constant):
-            continue
-        if isinstance(x, ast.Name):
-            defs = [s_.value for s_ in func_body_stmts(grk.node) if isinstance(s_, ast.Assign)
-                    and any(isinstance(t, ast.Name) and t.id == x.id for t in s_.targets)]
-            if len(defs) == 1:
-                x = defs[0]
-        conj = x.values if isinstance(x, ast.BoolOp) and isinstance(x.op, ast.And) else [x]
-        declared = set()
-        shape_ok = True
-        for cj in conj:
-            if isinstance(cj, ast.Attribute) and cj.attr == "is_real_valued" \
-                    and isinstance(cj.value, ast.Name) and cj.value.id in kindvar:
-                declared.add(kindvar[cj.value.id])
-            else:
-                shape_ok = False
-        if not shape_ok:
-            raise AnalysisError(f"{grk.fq}: realness expression {norm(x)} is not a conjunction "
-                                f"of <argument kind>.is_real_valued")
-        actual = set()
-        for pname in fn.params:
-            env = _realness_env(fn, {q: ("complex?" if q == pname else "real") for q in fn.params})
-            for pr in prets:
-                v = pr.value
-                if n_pos > 1:
-                    if not (isinstance(v, ast.Tuple) and len(v.elts) == n_pos):
+        for label, k_ in CPLX:
+            # the other arguments: whatever real kind the function accepts
+            import itertools
+            others = [q for q in names if q != p_]
+            decided = False
+            for combo in itertools.product(REAL, repeat=len(others)):
+                assign = dict(zip(others, combo))
+                assign[p_] = k_
+                kinds = ("tuple", tuple(assign[q] for q in names))
+                ev = se.Evaluator(P, stubs={"self.resolve_args": lambda a_, kw_, kinds=kinds: kinds})
+                outs = ev.outcomes(grk, {grk.params[0]: ("obj", "self"), grk.params[1]: ("obj", "arg_kinds"),
+                                         grk.params[2]: ("const", True)})
+                if any(k0 == "raise" for (k0, _), _f in outs):
+                    continue            # this combination is rejected by the function's own check
+                for (k0, val), _f in outs:
+                    decided = True
+                    n_cases += 1
+                    el = val[1][i] if val[0] == "tuple" and i < len(val[1]) else None
+                    if el is None or el[0] != "call":
+                        raise AnalysisError(f"{grk.fq}: result {i} is not a kind constructor in the "
+                                            f"case {p_}={label}")
+                    cname = el[1][1].split(".")[-1] if el[1][0] == "name" else "?"
+                    if cname == "UserType":
                         continue
-                    v = v.elts[i]
-                got = _realness(v, fn, env)
-                if got == "unknown":
-                    raise AnalysisError(f"{fn.fq}: realness of {norm(v)} not derivable from the "
-                                        f"numpy facts table")
-                if got == "complex?":
-                    actual.add(pname)
-        missing = sorted(actual - declared)
-        run.ob("C09.real", grk, r, not missing,
-               construct=f"{ident} result {i}: declared real iff {sorted(declared)} are real; the "
-                         f"implementation's result is complex when one of {sorted(actual)} is",
-               why=f"a complex {missing} gives a complex value in a variable whose kind "
-                   f"claims real")
+                    rv = dict(el[3]).get("is_real_valued", el[2][0] if el[2] else None)
+                    if rv is None:
+                        raise AnalysisError(f"{grk.fq}: realness of result {i} not found")
+                    try:
+                        real = ev.truth(rv, {})
+                    except Exception:
+                        raise AnalysisError(f"{grk.fq}: realness of result {i} not decided for "
+                                            f"{p_}={label}")
+                    if real:
+                        bad.append(f"{p_} = {label}")
+                break
+            if not decided:
+                continue
+    run.ob("C09.real", grk, grk.node, not bad,
+           construct=f"{ident} result {i}: not declared real when an argument that makes the "
+                     f"implementation's result complex ({sorted(actual)}) has a kind that can hold "
+                     f"complex data ({n_cases} accepted case(s))"
+                     + (f"; declared real for {sorted(set(bad))}" if bad else ""),
+           why="a complex value in a variable whose kind claims real")
 
 
 def _realness_env(fn: Func, init=None):
